@@ -141,7 +141,7 @@ func main() {
 	logging.SetLevel(logging.LevelNone)
 	rep := hx.NewReport("deadline", *seed)
 	rep.Rule = "histories on a time grid (operations at whole slots, expiries at half slots): 30 named scenarios, then random sequences of SetDeadline/SetReadDeadline/SetWriteDeadline (future, past, zero), small Write/Writev, big Write to a peer that does not read, peer drains, Close; " +
-		"http: connect + requests before/after the keep-alive expiry (with and without WriteTimeout); websocket: upgrade with KeepaliveTime 0 / >0, messages and pings; websocket client: Dial with DialTimeout 0 / >0, client KeepaliveTime 0 / >0, then silent / messages and pings from the server / messages to the server; http client: ClientConn with Timeout and IdleConnTimeout 0 / >0, answered requests, idle periods, a request that is never answered; every third connection history runs on a connection dialed with DialAsyncTimeout; non-trivial = at least one deadline is set; distinct = distinct plans"
+		"http: connect + requests before/after the keep-alive expiry (with and without WriteTimeout); websocket: upgrade with KeepaliveTime 0 / >0, messages and pings; websocket client: Dial with DialTimeout 0 / >0, client KeepaliveTime 0 / >0, then silent / messages and pings from the server / messages to the server; http client: ClientConn with Timeout and IdleConnTimeout 0 / >0, answered requests, idle periods, a request that is never answered; the connection histories rotate over the transports tcp accepted / DialAsyncTimeout / DialAsync / AddConn, unix AddConn, udp DialUDP+AddConn / DialAsync / per-peer server session, with and without traffic (drained to EAGAIN) before the first deadline; non-trivial = at least one deadline is set; distinct = distinct plans"
 
 	var m *hx.Model
 	if *model != "" {
@@ -268,6 +268,12 @@ func main() {
 			}
 		}
 		rep.Case(p.key(), nontrivial)
+		if p.Part == "conn" {
+			rep.Stat("conn.transport." + p.Transport)
+			if p.Pre {
+				rep.Stat("conn.traffic-before." + p.Transport)
+			}
+		}
 		for i := range o.Ops {
 			if c := o.Ops[i].Chk; c != nil && len(o.Ops[i].Cmds) == 1 && (o.Ops[i].Cmds[0] == "w 0" || o.Ops[i].Cmds[0] == "w 1") && c.Res == "ok" {
 				if c.Backlog {
@@ -287,6 +293,9 @@ func main() {
 			rep.Stat(p.Part + ".outcome.infra")
 		case o.Closed && o.EndClosed || o.Closed && anySeen(o):
 			rep.Stat(p.Part + ".outcome." + o.Cause)
+			if p.Part == "conn" && isUDP(p.Transport) {
+				rep.Stat(fmt.Sprintf("conn.udp-outcome.%s.pre=%v.%s", p.Transport, p.Pre, o.Cause))
+			}
 		default:
 			rep.Stat(p.Part + ".outcome.open-at-end")
 		}
